@@ -438,6 +438,19 @@ pub fn row_matches(shown: &Row, reference: &Row) -> bool {
         && num_shown_matches(&shown.dist, reference.vals.map(|v| v.2))
 }
 
+/// the rows on screen are a contiguous window of the tracker's table (a long table scrolls with
+/// the selection; without a selection the window starts at the first row)
+pub fn window_match(shown: &[Row], reference: &[Row], selected: bool) -> bool {
+    if shown.len() >= reference.len() {
+        return tables_match(shown, reference);
+    }
+    if shown.is_empty() {
+        return false;
+    }
+    let last = if selected { reference.len() - shown.len() } else { 0 };
+    (0..=last).any(|o| shown.iter().zip(reference[o..].iter()).all(|(a, b)| row_matches(a, b)))
+}
+
 pub fn tables_match(shown: &[Row], reference: &[Row]) -> bool {
     shown.len() == reference.len() && shown.iter().zip(reference.iter()).all(|(a, b)| row_matches(a, b))
 }
